@@ -71,6 +71,43 @@ def run(ctx):
                 ctx.bad('R08a', k, 'common key is updated in a way that is not order independent: h := %s' % T.show(val, 4), f, line=ev[3])
     ctx.info['writers_of_h'] = sorted(writers)
     ctx.floor('R08a', nw, 5)
+    # R08e: role discipline.  A function that erases from the table of foreign keys is a remover: on
+    # every accepting path the common key it leaves behind is h * stored^-1 mod p and nothing else
+    # (a shortcut such as h := h_i drops the contributions that remain).  A function that inserts into
+    # the table is an adder: it leaves h * key mod p.
+    ne = 0
+    for key, f in prog.funcs.items():
+        if f.get('cls') not in classes or not f.get('body') or f.get('ret') != 'bool':
+            continue
+        a = ctx.analysis(f)
+        T = a.T
+        erases = any(ev2[1].endswith('::erase') and ev2[6] == ('m', 'h_j') for n2, ev2 in a.all_events('mcall'))
+        inserts = any(e2[1][0] == 'e' and e2[1][1] == ('m', 'h_j') for n2, e2 in a.all_events('write'))
+        if not (erases or inserts):
+            continue
+        want = 'mul-inverse' if erases else 'mul-foreign'
+        bad = None
+        nex = 0
+        for n_, facts_ in a.accept_exits():
+            st = a.instate[n_.id]
+            hv = st.env.get(('m', 'h'))
+            nex += 1
+            if hv is None:
+                bad = ('left unchanged', n_.line)
+                break
+            kind = classify(a, hv, st)
+            if kind[0] != want:
+                bad = (T.show(hv, 3), n_.line)
+                break
+        ne += 1
+        k = 'R08e:%s' % f['q']
+        if bad is None and nex:
+            ctx.ok('R08e', k, 'on every accepting path the common key becomes %s' % ('h * stored^-1 mod p' if erases else 'h * key mod p'), f)
+        else:
+            ctx.bad('R08e', k, 'an accepting path of this %s leaves the common key as %s instead of %s: the key no longer is the product of the '
+                    'contributions in the table' % ('removal' if erases else 'update', bad[0] if bad else '?', 'h * stored^-1 mod p' if erases else 'h * key mod p'),
+                    f, line=bad[1] if bad else None)
+    ctx.floor('R08e', ne, 2)
     # R08d
     f = prog.fn(CLS + '::KeyGenerationProtocol_Finalize', 0)
     a = ctx.analysis(f)
@@ -126,6 +163,7 @@ EXPLANATION = ("Static effect analysis of the key-generation protocol: every wri
                "classified from its symbolic value as initialisation, h := h_i, h := h*key mod p or h := h*stored^-1 mod p -- the only "
                "update kinds that commute; the foreign-key update and the table insertion are dominated by a successful "
                "KeyGenerationProtocol_VerifyNIZK of the very value multiplied in; removal inverts the stored value, requires a known "
-               "fingerprint and erases the entry; Finalize rebuilds the fixed-base table from h. Equality of the keys different players "
+               "fingerprint and erases the entry, and on every accepting path of a removal (update) the key left behind is h*stored^-1 (h*key) "
+               "and nothing else; Finalize rebuilds the fixed-base table from h. Equality of the keys different players "
                "hold then follows from commutativity and is not itself decided.")
 ASSUMPTIONS = ["group multiplication modulo p is commutative and associative (algebra, not checked)", "std::map semantics"]
